@@ -386,6 +386,48 @@ func (s Seq) Bits() []uint8 {
 		for i := range out {
 			out[i] = seq[(i+rot)%len(seq)]
 		}
+	case "cusumword":
+		// a walk whose extreme excursion is reached at a chosen bit of a 64-bit word: low-excursion words first,
+		// then whole words of ones up to a new maximum on a word boundary, a pivot word (A ones, then zeros:
+		// the maximum is A above the boundary, the walk ends 64-2A... below it), one more word of ones (the
+		// old maximum is passed, or not, within a bit or two of the word's end), then words leading away.
+		// B bit0: complement everything (excursion downwards); B bit1: reverse (for the backward mode).
+		k := s.A
+		if k <= 0 || k > 63 {
+			k = 1
+		}
+		var words []uint64
+		for i, np := 0, r.Range(0, 12); i < np; i++ {
+			words = append(words, []uint64{0x5555555555555555, 0xAAAAAAAAAAAAAAAA, 0x0F0F0F0F0F0F0F0F, 0x3333333333333333, 0xFFFFFFFF00000000, 0x00000000FFFFFFFF}[r.Intn(6)])
+		}
+		for i, nu := 0, r.Range(2, 4); i < nu; i++ {
+			words = append(words, ^uint64(0))
+		}
+		words = append(words, ^uint64(0)<<(64-uint(k))) // k ones, then zeros
+		words = append(words, ^uint64(0))
+		for i, nd := 0, r.Range(1, 3); i < nd; i++ {
+			words = append(words, 0)
+		}
+		for i := 0; i < n; i++ {
+			w := i / 64
+			var word uint64 = 0x5555555555555555
+			if w < len(words) {
+				word = words[w]
+			} else if w%2 == 1 {
+				word = 0xAAAAAAAAAAAAAAAA
+			}
+			out[i] = uint8(word >> (63 - uint(i%64)) & 1)
+		}
+		if s.B&1 == 1 {
+			for i := range out {
+				out[i] ^= 1
+			}
+		}
+		if s.B&2 == 2 {
+			for i, j := 0, len(out)-1; i < j; i, j = i+1, j-1 {
+				out[i], out[j] = out[j], out[i]
+			}
+		}
 	case "counter": // the bytes 00,01,..,FF repeated (every byte value, hence every nibble and bit pair, equally often)
 		for i := range out {
 			out[i] = uint8(((i / 8) & 0xFF) >> (7 - uint(i%8)) & 1)
